@@ -258,8 +258,97 @@ pub async fn record() {
         }
         drop(members);
     }
+    let joins = join_scenario(&mut f, &mut next_id).await;
+    calls += joins;
     f.flush().unwrap();
-    println!("{}", json!({"calls": calls, "later_checks": later_checks, "layouts": layouts.len()}));
+    println!("{}", json!({"calls": calls, "later_checks": later_checks, "layouts": layouts.len(), "calls_after_a_join": joins}));
+}
+
+/// A node joins while writes are going on.  Two nodes form a cluster and node 1 keeps writing at levels All and Quorum
+/// (every 100 ms, so that whatever the selector remembers is fresh); a third node with its store joins; once node 1 has
+/// published the membership change that names it (its selector has been told before that), the next writes are recorded
+/// as calls on the three-node layout: `Ok` at All means the document is on both other members.
+async fn join_scenario(f: &mut impl Write, next_id: &mut u64) -> u64 {
+    use futures::StreamExt;
+    let mut recorded = 0u64;
+    for attempt in 0..3 {
+        let members = start_cluster(&[2]).await;
+        let issuer = &members[0];
+        let handle = issuer.store.handle_with_keyspace(KS);
+        let mut changes = issuer._node.membership_changes();
+        let seen_joiner = Arc::new(AtomicBool::new(false));
+        let flag = seen_joiner.clone();
+        let watcher = tokio::spawn(async move {
+            while let Some(change) = changes.next().await {
+                if change.joined.iter().any(|m| m.node_id == 3) {
+                    flag.store(true, Ordering::SeqCst);
+                }
+            }
+        });
+        // the joiner: a third node of the same data centre, seeded with the two others
+        let addr = free_addr();
+        let seeds: Vec<String> = members.iter().map(|m| m._node.me().public_addr.to_string()).collect();
+        let cfg = ConnectionConfig::new(addr, addr, seeds);
+        let inner3 = Arc::new(MemStore::default());
+        let writer = async {
+            let mut after = 0;
+            let mut out = vec![];
+            let start = std::time::Instant::now();
+            while after < 6 && start.elapsed() < Duration::from_secs(90) {
+                let lv = if *next_id % 2 == 0 { "All" } else { "Quorum" };
+                let id = *next_id;
+                *next_id += 1;
+                let told = seen_joiner.load(Ordering::SeqCst);
+                let res = handle.put(id, format!("v-{id}").into_bytes(), level(lv)).await;
+                if told {
+                    after += 1;
+                    let (result, responses, required, detail) = match &res {
+                        Ok(()) => ("ok", 0, 0, String::new()),
+                        Err(StoreError::ConsistencyError(ConsistencyError::ConsistencyFailure { responses, required, .. })) => ("failure", *responses, *required, String::new()),
+                        Err(StoreError::ConsistencyError(ConsistencyError::NotEnoughNodes { live, required })) => ("notenough", *live, *required, String::new()),
+                        Err(e) => ("other", 0, 0, e.to_string()),
+                    };
+                    // every node is read right after the call returned
+                    let local = held(issuer, id).await;
+                    let mut have = vec![];
+                    if let Some((lts, false, ldig)) = local.clone() {
+                        if matches!(held(&members[1], id).await, Some((ts, false, d)) if ts == lts && d == ldig) {
+                            have.push(json!([1, 2]));
+                        }
+                        let on3 = inner3.iter_metadata(KS).await.unwrap().find(|e| e.0 == id).map(|e| (e.1.as_u64(), e.2));
+                        if matches!(on3, Some((ts, false)) if ts == lts) {
+                            have.push(json!([1, 3]));
+                        }
+                    }
+                    out.push(json!({"ev": "call", "layout": [3], "level": lv, "kind": "put", "failing": [], "slow": [[1, 3]],
+                        "result": result, "responses": responses, "required": required, "detail": detail,
+                        "local": local.is_some(), "others": have, "ids": [id], "after_join": true}));
+                }
+                tokio::time::sleep(Duration::from_millis(100)).await;
+            }
+            out
+        };
+        let joiner = async {
+            tokio::time::sleep(Duration::from_millis(700)).await;
+            let node = DatacakeNodeBuilder::<DCAwareSelector>::new(3, cfg).with_data_center("dc1".to_string()).connect().await.ok()?;
+            let store = node.add_extension(EventuallyConsistentStoreExtension::new(FaultyStore::on(inner3.clone()))).await.ok()?;
+            Some((node, store))
+        };
+        let (calls_after, joined) = tokio::join!(writer, joiner);
+        watcher.abort();
+        let Some(_joined) = joined else { continue };
+        if calls_after.is_empty() {
+            eprintln!("join scenario, attempt {attempt}: node 1 never published the joiner within 90 s; trying again");
+            continue;
+        }
+        // (a write that failed its level says so itself - nobody refuses here, the joiner's services may simply not be up yet)
+        for e in calls_after {
+            writeln!(f, "{}", e).unwrap();
+            recorded += 1;
+        }
+        break;
+    }
+    recorded
 }
 
 
